@@ -36,7 +36,7 @@ func c06E2EJob(tier string) *SeqJob {
 		{tag: true, tags: map[string]string{"k!": "v?"}},
 		{tag: true, tags: map[string]string{"ok": "1.5"}},
 		{tag: true, tags: map[string]string{"\xff": "€"}},
-		{tag: true, tags: map[string]string{"s.s": "s.s"}}, // one raw string as subscope name, tag key and tag value
+		{tag: true, tags: map[string]string{"s.s": "s.s"}},    // one raw string as subscope name, tag key and tag value
 		{tag: true, tags: map[string]string{"fine": "clean"}}, // nothing to rewrite: the library must still not keep the caller's map
 	}
 	depth := tierInt(tier, 2, 3)
